@@ -58,23 +58,27 @@ VARIABLES l,        \* line being processed
           woff,     \* stream bytes so far (kept events)
           ncomp,    \* completions so far in this file (mode "fixed")
           fed, deliv,
-          mode, minimal, c1, nxt, fin
+          mode, minimal, c1, nxt, fin,
+          lostSeen  \* a packet that was serialized but never handed out has been passed in this run
 
-vars == <<l, cur, rx, pm, pdone, woff, ncomp, fed, deliv, mode, minimal, c1, nxt, fin>>
+vars == <<l, cur, rx, pm, pdone, woff, ncomp, fed, deliv, mode, minimal, c1, nxt, fin, lostSeen>>
 
 Ev == Rec[l]
 
 Init == /\ l = 1 /\ cur = Start /\ rx = RxInit(128) /\ pm = NoFn /\ pdone = 0 /\ woff = 0
         /\ ncomp = 0 /\ fed = 0 /\ deliv = 0 /\ mode = "fixed" /\ minimal = TRUE /\ c1 = 0
-        /\ nxt = NRec + 1 /\ fin = FALSE
+        /\ nxt = NRec + 1 /\ fin = FALSE /\ lostSeen = FALSE
 
 \* abandon the run with a verdict
 Fail(class, why) ==
-    /\ PrintT("@@VERDICT|" \o class \o "|" \o why \o "|" \o ToString(l))
+    /\ PrintT("@@VERDICT|" \o class \o "|" \o why
+                \o (IF lostSeen THEN " [after a packet serialized in a failed call was discarded]" ELSE "")
+                \o "|" \o ToString(l))
     /\ l' = nxt /\ cur' = Start /\ pdone' = 0
-    /\ UNCHANGED <<rx, pm, woff, ncomp, fed, deliv, mode, minimal, c1, nxt, fin>>
+    /\ UNCHANGED <<rx, pm, woff, ncomp, fed, deliv, mode, minimal, c1, nxt, fin, lostSeen>>
 
 Skip == /\ l' = l + 1 /\ cur' = Start /\ pdone' = 0
+        /\ lostSeen' = (lostSeen \/ (IsWire(l) /\ Ev.omit /\ "lost" \in DOMAIN Ev))
         /\ UNCHANGED <<rx, pm, woff, ncomp, fed, deliv, mode, minimal, c1, nxt, fin>>
 
 DoReset ==
@@ -83,6 +87,7 @@ DoReset ==
     /\ mode' = Ev.mode /\ minimal' = Ev.minimal /\ c1' = Ev.c1 /\ nxt' = Ev.next
     /\ ncomp' = IF Ev.mode = "fixed" THEN Ev.c0 ELSE ncomp
     /\ deliv' = IF Ev.mode = "fixed" THEN Ev.c0 ELSE deliv
+    /\ lostSeen' = FALSE
     /\ UNCHANGED fin
 
 MaxLen == 16777215
@@ -109,7 +114,7 @@ FinishEvent ==
     ELSE /\ l' = l + 1 /\ cur' = Start /\ pdone' = 0
          /\ woff' = woff + BLen(B)
          /\ ncomp' = IF mode = "fixed" THEN ncomp + pdone ELSE ncomp
-         /\ UNCHANGED <<rx, pm, fed, deliv, mode, minimal, c1, nxt, fin>>
+         /\ UNCHANGED <<rx, pm, fed, deliv, mode, minimal, c1, nxt, fin, lostSeen>>
 
 OneChunk ==
     LET B == Ev.bytes
@@ -148,7 +153,7 @@ OneChunk ==
          /\ pm' = IF fin1 THEN Del(pm, c) ELSE Upd(pm, c, ml)
          /\ cur' = p.after
          /\ pdone' = IF fin1 THEN pdone + 1 ELSE pdone
-         /\ UNCHANGED <<l, woff, ncomp, fed, deliv, mode, minimal, c1, nxt, fin>>
+         /\ UNCHANGED <<l, woff, ncomp, fed, deliv, mode, minimal, c1, nxt, fin, lostSeen>>
 
 Process ==
     IF Ev.ev = "Ser" /\ Ev.res # "ok"
@@ -167,7 +172,7 @@ Process ==
          ELSE /\ l' = l + 1 /\ cur' = Start /\ pdone' = 0
               /\ woff' = woff + BLen(Ev.bytes)
               /\ ncomp' = IF Ev.done THEN ncomp + 1 ELSE ncomp
-              /\ UNCHANGED <<rx, pm, fed, deliv, mode, minimal, c1, nxt, fin>>
+              /\ UNCHANGED <<rx, pm, fed, deliv, mode, minimal, c1, nxt, fin, lostSeen>>
     ELSE IF cur[3] = BLen(Ev.bytes) THEN FinishEvent
     ELSE OneChunk
 
@@ -205,7 +210,7 @@ DoFeed ==
     ELSE IF deliv + k < c1 /\ Rec[Comp[deliv + k + 1]].end <= f2
          THEN Fail("DES", "message not returned by the call that delivered its last byte")
     ELSE /\ fed' = f2 /\ deliv' = deliv + k /\ l' = l + 1
-         /\ UNCHANGED <<cur, rx, pm, pdone, woff, ncomp, mode, minimal, c1, nxt, fin>>
+         /\ UNCHANGED <<cur, rx, pm, pdone, woff, ncomp, mode, minimal, c1, nxt, fin, lostSeen>>
 
 DoEnd ==
     IF mode = "fixed" /\ ncomp # c1 THEN Fail("TOOL", "logged completion count disagrees with the reference receiver")
@@ -221,7 +226,7 @@ Step ==
          [] Ev.ev = "Feed" -> DoFeed
          [] Ev.ev = "End" -> DoEnd
 
-Finish == /\ l = NRec + 1 /\ ~fin /\ fin' = TRUE
+Finish == /\ l = NRec + 1 /\ ~fin /\ fin' = TRUE /\ UNCHANGED lostSeen
           /\ PrintT("@@ACCEPT|" \o ToString(NRec) \o "|" \o ToString(NComp))
           /\ UNCHANGED <<l, cur, rx, pm, pdone, woff, ncomp, fed, deliv, mode, minimal, c1, nxt>>
 
